@@ -169,17 +169,50 @@ Proof. exact @poi_scale1_rejects. Qed.
 Theorem C18_poi_to_ind_rejects_ab : forall T (K : ops T) fl acosf pi X a b n kd x,
   In x (olen a ++ olen b) -> x <> Z.of_nat (length X) -> poi_to_ind1 K fl acosf pi X a b n kd = Err ValueError.
 Proof. exact @poi_to_ind1_rejects_ab. Qed.
-(* ... except n in poi_to_ind, which the code prepares without validation: for d <> 1 a wrong-length n is still
-   rejected (by numpy: IndexError if its length is 1, ValueError otherwise) ... *)
-Theorem C18_poi_to_ind_rejects_n_partial : forall T (K : ops T) fl acosf pi X a b nv kd Xsc, kd = KUni \/ kd = KCheb ->
-  poi_scale1 K X a b kd = Ok Xsc -> length nv <> length X -> length X <> 1%nat ->
-  poi_to_ind1 K fl acosf pi X a b (GVec nv) kd = Err (if Nat.eqb (length nv) 1 then IndexError else ValueError).
+(* ... and so is n of poi_to_ind (since /repo bc9fc68 it goes through grid_prep_opts(None, None, n, d, m)):
+   every dimension d, every kind, as soon as the scaling of the point itself succeeded *)
+Theorem C18_poi_to_ind_rejects_n : forall T (K : ops T) fl acosf pi X a b n kd Xsc x,
+  poi_scale1 K X a b kd = Ok Xsc -> In x (olen n) -> x <> Z.of_nat (length X) ->
+  poi_to_ind1 K fl acosf pi X a b n kd = Err ValueError.
 Proof. exact @poi_to_ind1_rejects_n. Qed.
-(* ... and for d = 1 it is NOT rejected (the rejection clause fails here; reported as a finding): *)
-Theorem C18_poi_to_ind_n_not_validated_d1 : forall T (K : ops T) fl acosf pi x a b nv kd Xsc, kd = KUni \/ kd = KCheb ->
+(* whatever a, b, kind are, a call with a wrong-length list n never succeeds *)
+Theorem C18_poi_to_ind_rejects_n_never_ok : forall T (K : ops T) fl acosf pi X a b n kd x,
+  In x (olen n) -> x <> Z.of_nat (length X) -> exists e, poi_to_ind1 K fl acosf pi X a b n kd = Err e.
+Proof. exact @poi_to_ind1_rejects_n_never_ok. Qed.
+(* the rejection clause for poi_to_ind in one statement: a, b given (a missing bound is a TypeError whatever n is),
+   any list-valued a / b / n of the wrong length => ValueError *)
+Theorem C18_poi_to_ind_rejects : forall T (K : ops T) fl acosf pi X a b n kd x, a <> GNone -> b <> GNone ->
+  In x (olen a ++ olen b ++ olen n) -> x <> Z.of_nat (length X) ->
+  poi_to_ind1 K fl acosf pi X a b n kd = Err ValueError.
+Proof. exact @poi_to_ind1_rejects. Qed.
+(* batches [m, d], m >= 1: rejected exactly as their rows *)
+Theorem C18_batch_rejects : forall T (K : ops T) fl cosf acosf pi (X : list (list T)) (I : list (list Z)) a b n kd d x,
+  x <> Z.of_nat d ->
+  (rect d I -> In x (olen a ++ olen b ++ olen n) -> ind_to_poi K cosf pi I a b n kd = Err ValueError) /\
+  (rect d X -> In x (olen a ++ olen b) -> poi_scale K X a b kd = Err ValueError) /\
+  (rect d X -> a <> GNone -> b <> GNone -> In x (olen a ++ olen b ++ olen n) ->
+   poi_to_ind K fl acosf pi X a b n kd = Err ValueError).
+Proof. exact @batch_rejects. Qed.
+
+(* the code as pinned prepared n with grid_prep_opt alone (no validation).  It agrees with the code on every n of
+   the right length or scalar ... *)
+Theorem C18_poi_to_ind_pinned_same : forall T (K : ops T) fl acosf pi X a b n kd,
+  (forall x, In x (olen n) -> x = Z.of_nat (length X)) ->
+  poi_to_ind1 K fl acosf pi X a b n kd = poi_to_ind1_pinned K fl acosf pi X a b n kd.
+Proof. exact @poi_to_ind1_pinned_same. Qed.
+(* ... but for d = 1 it accepted every list n of length <> 1 (numpy broadcasting): the rejection clause failed *)
+Theorem C18_poi_to_ind_pinned_accepts_n_d1 : forall T (K : ops T) fl acosf pi x a b nv kd Xsc, kd = KUni \/ kd = KCheb ->
   poi_scale1 K [x] a b kd = Ok Xsc -> length nv <> 1%nat ->
-  exists r, poi_to_ind1 K fl acosf pi [x] a b (GVec nv) kd = Ok r /\ length r = length nv.
-Proof. exact @poi_to_ind1_accepts_n_d1. Qed.
+  exists r, poi_to_ind1_pinned K fl acosf pi [x] a b (GVec nv) kd = Ok r /\ length r = length nv.
+Proof. exact @poi_to_ind1_pinned_accepts_n_d1. Qed.
+(* the witness of the finding: poi_to_ind([0.1], 0., 1., [4, 5, 6]) returned three indices on the pinned code and is
+   a ValueError now *)
+Theorem C18_poi_to_ind_pinned_refuted :
+  exists (X : list Qc) (a b : gopt Qc) (nv r : list Z),
+    length nv <> length X /\
+    poi_to_ind1_pinned OQc Qc_floor (fun x => x) (Q2Qc 0) X a b (GVec nv) KUni = Ok r /\
+    poi_to_ind1 OQc Qc_floor (fun x => x) (Q2Qc 0) X a b (GVec nv) KUni = Err ValueError.
+Proof. exact poi_to_ind1_pinned_refuted. Qed.
 
 (* ---------------------------------------------------------------- grid_flat *)
 (* inbox ns idx: idx has the length of ns and idx_k < ns_k;  undigits_F ns idx = i0 + n0*(i1 + n1*(i2 + ...)) *)
@@ -252,12 +285,17 @@ Example C18_ex_opts :
   grid_prep_opts (GSc 1%Z) (GSc 2%Z) (GSc 3%Z) None None = Err ValueError /\
   grid_prep_opts (@GNone Z) GNone GNone None None = Ok (PNone, PNone, PNone).
 Proof. repeat split. Qed.
-(* the finding, on the model: d = 1 and n of length 3 is accepted and yields three indices *)
-Example C18_ex_n_not_validated :
-  poi_to_ind1 OQc Qc_floor idQ (q 0 1) [q 1 10] (GSc (q 0 1)) (GSc (q 1 1)) (GVec [4; 5; 6]%Z) KUni = Ok [0; 0; 0]%Z /\
+(* malformed n on the model of the code: rejected for d = 1 and for d = 3; the pinned variant on the same inputs *)
+Example C18_ex_n_validated :
+  poi_to_ind1 OQc Qc_floor idQ (q 0 1) [q 1 10] (GSc (q 0 1)) (GSc (q 1 1)) (GVec [4; 5; 6]%Z) KUni = Err ValueError /\
   poi_to_ind1 OQc Qc_floor idQ (q 0 1) [q 1 10; q 1 5; q 3 10] (GSc (q 0 1)) (GSc (q 1 1)) (GVec [5]%Z) KUni
+    = Err ValueError /\
+  poi_to_ind1 OQc Qc_floor idQ (q 0 1) [q 1 10; q 1 5; q 3 10] (GSc (q 0 1)) (GSc (q 1 1)) (GVec [5; 5; 5]%Z) KUni
+    = Ok [0; 1; 1]%Z /\
+  poi_to_ind1_pinned OQc Qc_floor idQ (q 0 1) [q 1 10] (GSc (q 0 1)) (GSc (q 1 1)) (GVec [4; 5; 6]%Z) KUni = Ok [0; 0; 0]%Z /\
+  poi_to_ind1_pinned OQc Qc_floor idQ (q 0 1) [q 1 10; q 1 5; q 3 10] (GSc (q 0 1)) (GSc (q 1 1)) (GVec [5]%Z) KUni
     = Err IndexError.
-Proof. split; vm_compute; reflexivity. Qed.
+Proof. repeat split; vm_compute; reflexivity. Qed.
 Example C18_ex_grid_flat :
   grid_flat [2; 3]%nat = [[0; 0]; [1; 0]; [0; 1]; [1; 1]; [0; 2]; [1; 2]]%nat /\ inbox [2; 3]%nat [1; 2]%nat /\
   undigits_F [2; 3]%nat [1; 2]%nat = 5%nat.
